@@ -86,6 +86,45 @@ func exprTextShort(v ssa.Value) string {
 	return s
 }
 
+// siteOrdinal is the static ordinal (1-based, block order) of a call site among
+// the call/defer/go instructions of fn whose callee has the same short name.
+// Static so that ghost anchors do not depend on the path taken to the site.
+func (x *Exec) siteOrdinal(fn *ssa.Function, site ssa.Instruction, name string) int {
+	common := func(i ssa.Instruction) *ssa.CallCommon {
+		switch t := i.(type) {
+		case *ssa.Call:
+			return &t.Call
+		case *ssa.Defer:
+			return &t.Call
+		case *ssa.Go:
+			return &t.Call
+		}
+		return nil
+	}
+	// a call through a closure value is named after the closure at run time;
+	// count it among the sites with the same static name
+	if sc := common(site); sc != nil {
+		name = x.calleeName(sc, Value{})
+	}
+	n := 0
+	for _, b := range fn.Blocks {
+		for _, i := range b.Instrs {
+			cc := common(i)
+			if cc == nil {
+				continue
+			}
+			if x.calleeName(cc, Value{}) != name {
+				continue
+			}
+			n++
+			if i == site {
+				return n
+			}
+		}
+	}
+	return 0
+}
+
 func (x *Exec) doCall(st *State, fi int, c *ssa.CallCommon, site ssa.Instruction, k func(*State, Value)) {
 	var args []Value
 	for _, a := range c.Args {
